@@ -79,6 +79,18 @@ fn gen_desc_plan(seed: u64) -> DescPlan {
             descs.push(e);
         }
     }
+    // twins whose constant-label VALUES are boundary-shifted around a character that a sloppy
+    // separator could be confused with (U+00FF encodes as C3 BF; U+001F, NUL, ',' and '=' likewise)
+    if r.chance(45) {
+        let sep = *r.pick(&["\u{ff}", "\u{1f}", "\u{0}", ",", "=", "\u{ff}\u{ff}"]);
+        let (p0, p1, p2) = (*r.pick(&["a", "", "x\u{ff}"]), *r.pick(&["b", "", "\u{ff}"]), *r.pick(&["c", "", "z"]));
+        let name = "tw".to_string();
+        let help = "h".to_string();
+        let a = DescSpec { name: name.clone(), help: help.clone(), consts: vec![("k1".into(), p0.to_string()), ("k2".into(), format!("{}{}{}", p1, sep, p2))], vars: vec![] };
+        let b = DescSpec { name, help, consts: vec![("k1".into(), format!("{}{}{}", p0, sep, p1)), ("k2".into(), p2.to_string())], vars: vec![] };
+        descs.push(a);
+        descs.push(b);
+    }
     let replicas = (0..3).map(|_| (r.next(), r.next())).collect();
     DescPlan { env: Env::basic(r.next()), descs, replicas }
 }
